@@ -17,7 +17,7 @@ func (c09) Level() string { return "fault_enumeration" }
 func (c09) Procs() int    { return 2 }
 func (c09) Budget(tier string) (int, int) {
 	if tier == "thorough" {
-		return 40000000, 480
+		return 400000000, 480
 	}
 	return 80000, 90
 }
